@@ -1186,6 +1186,54 @@ func c16Random(c *kit.Case, n int, explicitNulls bool) {
 	}
 }
 
+// c16Shape writes a pages to the root, opens a range with b pages (first, in
+// the middle or last), c2 more pages to the root, and closes: the sizes sit at
+// the places where the merging of subtrees of different depth meets the fan-out.
+func c16Shape(c *kit.Case, a, b, c2 int, rangeFirst bool) {
+	cfg := c16Configs[c.Index%4]
+	gen := c16NewAttrGen(c.Rng)
+	label := fmt.Sprintf("shape: %d root pages, a range of %d pages (first: %v), %d more root pages; %s", a, b, rangeFirst, c2, gen.desc)
+	r, err := c16NewRun(c, cfg, label)
+	if err != nil {
+		c.Violationf("setup", "%s: %v", cfg, err)
+		return
+	}
+	r.prefix = "shape/"
+	defer r.guard()
+	pages := func(w, n int) bool {
+		for i := 0; i < n; i++ {
+			if !r.appendPage(w, 'd', gen.next(w)) {
+				return false
+			}
+		}
+		return true
+	}
+	rng := func() bool {
+		if !r.newRange(0) {
+			return false
+		}
+		k := len(r.ranges) - 1
+		if !pages(k, b) {
+			return false
+		}
+		return c.Rng.Bool() || r.closeRange(k)
+	}
+	if rangeFirst {
+		if !rng() || !pages(0, a) {
+			return
+		}
+	} else if !pages(0, a) || !rng() {
+		return
+	}
+	if !pages(0, c2) {
+		return
+	}
+	r.finish()
+	c.R.Count("pages_written", int64(len(r.pages)))
+	c.R.Count("shaped_trees", 1)
+	c.Distinct(fmt.Sprintf("shape|%s|%d|%d|%d|%v", cfg, a, b, c2, rangeFirst))
+}
+
 // ---- exhaustive phase: all programs over a tiny alphabet up to a length ---
 
 // The alphabet: for each open writer K (at most three writers exist: the
@@ -1403,6 +1451,40 @@ func TestVerifC16(t *testing.T) {
 		n := sizes[c.Index]
 		c.R.Seen("boundary-sizes", strconv.Itoa(n))
 		c16Random(c, n, false)
+	})
+
+	// subtrees of different depth meeting at the fan-out: i x 256 + j x 16 (+-1) root
+	// pages and a range of 1..33 pages
+	type shape struct {
+		a, b, c2 int
+		first    bool
+	}
+	var shapes []shape
+	for _, i := range []int{0, 1, 14, 15, 16} {
+		for _, j := range []int{0, 1, 2, 15} {
+			for _, d := range []int{-1, 0, 1} {
+				a := i*256 + j*16 + d
+				if a < 1 {
+					continue
+				}
+				for _, b := range []int{1, 14, 15, 16, 17, 31, 33} {
+					shapes = append(shapes, shape{a, b, 0, false}, shape{a, b, 0, true}, shape{a, b, 15, false})
+				}
+			}
+		}
+	}
+	nshapes := len(shapes)
+	if r.Quick() {
+		nshapes = 90 // a seeded sample; the thorough tier runs all of them
+	} else {
+		r.Exhaustive("merge-shapes")
+	}
+	r.Phase("merge-shapes", nshapes, func(c *kit.Case) {
+		sh := shapes[c.Index]
+		if r.Quick() {
+			sh = shapes[(c.Index*len(shapes)/90+int(c.R.Seed%7))%len(shapes)]
+		}
+		c16Shape(c, sh.a, sh.b, sh.c2, sh.first)
 	})
 
 	r.Phase("random", r.N(4400, 60000), func(c *kit.Case) {
